@@ -8,44 +8,44 @@ import SquidModel.Base64.Basic
 
 namespace SquidModel.Base64
 
-theorem decodeAll_eq_some (s x : Bytes) :
-    decodeAll s = some x ↔
-      (decodeUpdate decodeInit s).2.2 = .ok ∧ decodeFinal (decodeUpdate decodeInit s).1 = true ∧ (decodeUpdate decodeInit s).2.1 = x := by
+theorem decodeAll_eq_some (lim : Nat) (s x : Bytes) :
+    decodeAll lim s = some x ↔
+      (decodeUpdate lim decodeInit s).2.2 = .ok ∧ decodeFinal (decodeUpdate lim decodeInit s).1 = true ∧ (decodeUpdate lim decodeInit s).2.1 = x := by
   simp only [decodeAll, decodeChunks, decodeChunksFrom]
-  generalize decodeUpdate decodeInit s = r
+  generalize decodeUpdate lim decodeInit s = r
   obtain ⟨c, o, k⟩ := r
   cases k <;> simp
 
 /-- chunking of the decoder input is irrelevant -/
-theorem decodeChunksFrom_flatten (ys : List Bytes) : ∀ ctx, decodeChunksFrom ctx ys = decodeChunksFrom ctx [ys.flatten] := by
+theorem decodeChunksFrom_flatten (lim : Nat) (ys : List Bytes) : ∀ ctx, decodeChunksFrom lim ctx ys = decodeChunksFrom lim ctx [ys.flatten] := by
   induction ys with
   | nil => intro ctx; simp [decodeChunksFrom, decodeUpdate]
   | cons s rest ih =>
     intro ctx
     simp only [List.flatten_cons]
     rw [decodeChunksFrom]
-    generalize hr : decodeUpdate ctx s = r
+    generalize hr : decodeUpdate lim ctx s = r
     obtain ⟨c1, o1, k⟩ := r
     cases k with
     | ok =>
       simp only
       rw [ih c1]
-      simp only [decodeChunksFrom, update_append_ok s rest.flatten ctx c1 o1 hr]
-      generalize decodeUpdate c1 rest.flatten = r2
+      simp only [decodeChunksFrom, update_append_ok lim s rest.flatten ctx c1 o1 hr]
+      generalize decodeUpdate lim c1 rest.flatten = r2
       obtain ⟨c2, o2, k2⟩ := r2
       cases k2 <;> simp
     | bad =>
-      simp only [decodeChunksFrom, update_append_fail s rest.flatten ctx c1 o1 .bad hr (by simp)]
+      simp only [decodeChunksFrom, update_append_fail lim s rest.flatten ctx c1 o1 .bad hr (by simp)]
     | assertFail =>
-      simp only [decodeChunksFrom, update_append_fail s rest.flatten ctx c1 o1 .assertFail hr (by simp)]
+      simp only [decodeChunksFrom, update_append_fail lim s rest.flatten ctx c1 o1 .assertFail hr (by simp)]
 
-theorem decodeChunks_flatten (ys : List Bytes) : decodeChunks ys = decodeAll ys.flatten :=
-  decodeChunksFrom_flatten ys decodeInit
+theorem decodeChunks_flatten (lim : Nat) (ys : List Bytes) : decodeChunks lim ys = decodeAll lim ys.flatten :=
+  decodeChunksFrom_flatten lim ys decodeInit
 
 /-- one-shot decoding of encode_raw output, white space allowed anywhere -/
-theorem decodeAll_canonical (s x : Bytes) (h : strip s = encodeRaw x) : decodeAll s = some x := by
+theorem decodeAll_canonical (lim : Nat) (hlim : 2 ≤ lim) (s x : Bytes) (h : strip s = encodeRaw x) : decodeAll lim s = some x := by
   rw [decodeAll_eq_some, ← update_strip, h]
-  obtain ⟨ctx', hd, hb, _⟩ := decode_encodeRaw x 0
+  obtain ⟨ctx', hd, hb, _⟩ := decode_encodeRaw lim hlim x 0
   have : decodeInit = ⟨0, 0, 0⟩ := rfl
   rw [this, hd]
   simp [decodeFinal, hb]
@@ -93,27 +93,28 @@ theorem noWs_encodeRaw (x : Bytes) : NoWs (encodeRaw x) := by
   | case4 => intro d hd; simp [encodeRaw] at hd
 
 /-- accepted, and not ending in three pad characters: the text is the canonical encoding of the result -/
-theorem decodeAll_sound (s x : Bytes) (h : decodeAll s = some x) (hs : ¬ ([61, 61, 61] <:+ strip s)) :
+theorem decodeAll_sound (lim : Nat) (hlim1 : 1 ≤ lim) (hlim3 : lim ≤ 3) (s x : Bytes) (h : decodeAll lim s = some x)
+    (hs : lim ≤ 2 ∨ ¬ ([61, 61, 61] <:+ strip s)) :
     strip s = encodeRaw x := by
   rw [decodeAll_eq_some, ← update_strip] at h
   obtain ⟨hk, hf, hx⟩ := h
-  generalize hr : decodeUpdate decodeInit (strip s) = r at hk hf hx
+  generalize hr : decodeUpdate lim decodeInit (strip s) = r at hk hf hx
   obtain ⟨c, o, k⟩ := r
   simp only at hk hf hx
   subst hk hx
-  exact sound_aux _ (strip s) (Nat.le_refl _) (noWs_strip s) hs 0 c o hr (by simpa [decodeFinal] using hf)
+  exact sound_aux lim hlim1 hlim3 _ (strip s) (Nat.le_refl _) (noWs_strip s) hs 0 c o hr (by simpa [decodeFinal] using hf)
 
 /-- the whole class of the known finding: full groups followed by "A===" are accepted -/
-theorem triple_pad_accepted (x : Bytes) : decodeAll (encodeRaw x ++ [65, 61, 61, 61]) = some x ∨ x.length % 3 ≠ 0 := by
+theorem triple_pad_accepted (lim : Nat) (hlim : 3 ≤ lim) (x : Bytes) : decodeAll lim (encodeRaw x ++ [65, 61, 61, 61]) = some x ∨ x.length % 3 ≠ 0 := by
   by_cases hl : x.length % 3 = 0
   · left
-    have key : ∀ (y : Bytes) (w : Nat), y.length % 3 = 0 → ∃ w', decodeUpdate ⟨w, 0, 0⟩ (encodeRaw y ++ [65, 61, 61, 61]) =
+    have key : ∀ (y : Bytes) (w : Nat), y.length % 3 = 0 → ∃ w', decodeUpdate lim ⟨w, 0, 0⟩ (encodeRaw y ++ [65, 61, 61, 61]) =
         (⟨w', 0, 3⟩, y, .ok) := by
       intro y
       induction y using encodeRaw.induct with
       | case1 a b c rest ih =>
         intro w hy
-        obtain ⟨w1, hg⟩ := decode_group w a b c (encodeRaw rest ++ [65, 61, 61, 61])
+        obtain ⟨w1, hg⟩ := decode_group lim w a b c (encodeRaw rest ++ [65, 61, 61, 61])
         obtain ⟨w2, h2⟩ := ih w1 (by simp only [List.length_cons] at hy; omega)
         refine ⟨w2, ?_⟩
         have : encodeRaw (a :: b :: c :: rest) ++ [65, 61, 61, 61] = encodeRaw [a, b, c] ++ (encodeRaw rest ++ [65, 61, 61, 61]) := by
@@ -130,11 +131,11 @@ theorem triple_pad_accepted (x : Bytes) : decodeAll (encodeRaw x ++ [65, 61, 61,
         have z6 : wstep w 0 % 2 ^ 6 = 0 := by simp only [wstep]; omega
         have z4 : wstep w 0 % 2 ^ 4 = 0 := by simp only [wstep]; omega
         have z2 : wstep w 0 % 2 ^ 2 = 0 := by simp only [wstep]; omega
-        rw [decodeUpdate_cons, padstep _ 6 0 (by decide) (by decide) (by decide) z6]
+        rw [decodeUpdate_cons, padstep lim _ 6 0 (by decide) (by decide) (by omega) (by decide) z6]
         simp only
-        rw [decodeUpdate_cons, padstep _ 4 1 (by decide) (by decide) (by decide) z4]
+        rw [decodeUpdate_cons, padstep lim _ 4 1 (by decide) (by decide) (by omega) (by decide) z4]
         simp only
-        rw [decodeUpdate_cons, padstep _ 2 2 (by decide) (by decide) (by decide) z2]
+        rw [decodeUpdate_cons, padstep lim _ 2 2 (by decide) (by decide) (by omega) (by decide) z2]
         simp only [decodeUpdate]
         exact ⟨_, rfl⟩
     obtain ⟨w', hk⟩ := key x 0 hl
@@ -166,36 +167,44 @@ theorem cstr_of_no_nul (s : Bytes) (h : (0 : UInt8) ∉ s) : cstr s = s := by
     exact ih h.2
 
 /-- what decodeCleartext returns: the C-string view of the decoded payload, free of CR and LF -/
-theorem decodeCleartext_some (hdr clear : Bytes) :
-    decodeCleartext hdr = some clear ↔
-      ∃ x, decodeAll (payload hdr) = some x ∧ clear = cstr x ∧ (13 : UInt8) ∉ clear ∧ (10 : UInt8) ∉ clear := by
+theorem decodeCleartext_some (lim : Nat) (hdr clear : Bytes) :
+    decodeCleartext lim hdr = some clear ↔
+      decodeAll lim (payload hdr) = some clear ∧ (0 : UInt8) ∉ clear ∧ (13 : UInt8) ∉ clear ∧ (10 : UInt8) ∉ clear := by
   simp only [decodeCleartext, decodeAll_eq_some]
-  generalize decodeUpdate decodeInit (payload hdr) = r
+  generalize decodeUpdate lim decodeInit (payload hdr) = r
   obtain ⟨c, o, k⟩ := r
   simp only
   by_cases hok : k = .ok ∧ decodeFinal c = true
   · simp only [hok, and_self, ↓reduceIte, true_and]
-    by_cases hany : (cstr o).any (fun c => c == 13 || c == 10) = true
-    · simp only [hany, ↓reduceIte]
+    by_cases hnul : o.contains 0 = true
+    · simp only [hnul, ↓reduceIte]
       constructor
       · intro h; cases h
-      · rintro ⟨x, rfl, rfl, h13, h10⟩
-        simp only [List.any_eq_true, Bool.or_eq_true, beq_iff_eq] at hany
-        obtain ⟨d, hd, rfl | rfl⟩ := hany
-        · exact absurd hd h13
-        · exact absurd hd h10
-    · simp only [hany, Bool.false_eq_true, ↓reduceIte, Option.some.injEq]
-      simp only [List.any_eq_true, Bool.or_eq_true, beq_iff_eq, not_exists, not_and, not_or] at hany
-      constructor
-      · intro h
-        subst h
-        exact ⟨o, rfl, rfl, fun h => (hany 13 h).1 rfl, fun h => (hany 10 h).2 rfl⟩
-      · rintro ⟨x, rfl, rfl, _, _⟩; rfl
+      · rintro ⟨rfl, h0, _, _⟩
+        exact absurd (by simpa using hnul) h0
+    · have h0 : (0 : UInt8) ∉ o := by simpa using hnul
+      simp only [hnul, Bool.false_eq_true, ↓reduceIte, cstr_of_no_nul o h0]
+      by_cases hany : o.any (fun c => c == 13 || c == 10) = true
+      · simp only [hany, ↓reduceIte]
+        constructor
+        · intro h; cases h
+        · rintro ⟨rfl, _, h13, h10⟩
+          simp only [List.any_eq_true, Bool.or_eq_true, beq_iff_eq] at hany
+          obtain ⟨d, hd, rfl | rfl⟩ := hany
+          · exact absurd hd h13
+          · exact absurd hd h10
+      · simp only [hany, Bool.false_eq_true, ↓reduceIte, Option.some.injEq]
+        simp only [List.any_eq_true, Bool.or_eq_true, beq_iff_eq, not_exists, not_and, not_or] at hany
+        constructor
+        · intro h
+          subst h
+          exact ⟨rfl, h0, fun h => (hany 13 h).1 rfl, fun h => (hany 10 h).2 rfl⟩
+        · rintro ⟨rfl, _, _, _⟩; rfl
   · have : ¬ (k = UpdRes.ok ∧ decodeFinal c = true) := hok
     simp only [this, ↓reduceIte]
     constructor
     · intro h; cases h
-    · rintro ⟨x, ⟨h1, h2, _⟩, _⟩
+    · rintro ⟨⟨h1, h2, _⟩, _⟩
       exact absurd ⟨h1, h2⟩ hok
 
 theorem toLower_not_ctl (c : UInt8) (h0 : c ≠ 0) (h10 : c ≠ 10) (h13 : c ≠ 13) :
@@ -217,10 +226,10 @@ theorem toLower_not_colon (c : UInt8) (h : c ≠ 58) : toLower c ≠ 58 := by
   · exact h1
 
 /-- the buffer arithmetic of decodeCleartext -/
-theorem clearMem_safe (hdr : Bytes) :
-    (clearMem hdr).written ≤ decodeLength (payload hdr).length ∧ (clearMem hdr).written + 1 ≤ (clearMem hdr).size ∧
-    ∀ k, (clearMem hdr).nulAt = some k → k < (clearMem hdr).size := by
-  have hb := (update_inv (payload hdr) decodeInit dinv_init).2
+theorem clearMem_safe (lim : Nat) (hdr : Bytes) :
+    (clearMem lim hdr).written ≤ decodeLength (payload hdr).length ∧ (clearMem lim hdr).written + 1 ≤ (clearMem lim hdr).size ∧
+    ∀ k, (clearMem lim hdr).nulAt = some k → k < (clearMem lim hdr).size := by
+  have hb := (update_inv lim (payload hdr) decodeInit dinv_init).2
   have hl := decodeLength_eq (payload hdr).length
   have e : Gen.Base64.cleartextExtra = 1 := by decide
   have h0 : decodeInit.bits = 0 := rfl
@@ -228,7 +237,7 @@ theorem clearMem_safe (hdr : Bytes) :
   simp only [clearMem, e]
   refine ⟨by omega, by omega, ?_⟩
   intro k hk
-  by_cases hc : (decodeUpdate decodeInit (payload hdr)).2.2 = UpdRes.ok ∧ decodeFinal (decodeUpdate decodeInit (payload hdr)).1 = true
+  by_cases hc : (decodeUpdate lim decodeInit (payload hdr)).2.2 = UpdRes.ok ∧ decodeFinal (decodeUpdate lim decodeInit (payload hdr)).1 = true
   · rw [if_pos hc] at hk
     simp only [Option.some.injEq] at hk; omega
   · rw [if_neg hc] at hk
@@ -318,6 +327,66 @@ theorem payload_of_header (scheme b64 : Bytes) (hs : ∀ c ∈ scheme, isGraph c
   obtain ⟨t1, t2, t3⟩ := h3 b64 (fun c hc => (hsp c (hb c hc)).2)
   simp only [payload, h1, h2, strtokLF, t1, t2, t3, List.nil_append]
   cases b64 <;> rfl
+
+
+/-- the two implementations: lim = 2 (lib/base64.cc) or lim = 3 (libnettle) -/
+def Impl (lim : Nat) : Prop := lim = Gen.Base64.localPadLimit ∨ lim = Gen.Base64.nettlePadLimit
+
+theorem impl_bounds {lim : Nat} (h : Impl lim) : 2 ≤ lim ∧ lim ≤ 3 := by
+  rcases h with h | h
+  · rw [h, local_lim]; omega
+  · rw [h, nettle_lim]; omega
+
+/-- provenance of accepted credentials: the payload is canonical base64 of a text free of NUL/CR/LF, and the
+result is its split at the first colon -/
+theorem basic_sound_gen (lim : Nat) (hlim1 : 1 ≤ lim) (hlim3 : lim ≤ 3) (cs : Bool) (hdr : Bytes) (c : Creds)
+    (h : Basic.decode lim cs hdr = some c) (hpad : lim ≤ 2 ∨ ¬ ([61, 61, 61] <:+ strip (payload hdr))) :
+    ∃ x, strip (payload hdr) = encodeRaw x ∧ (0 : UInt8) ∉ x ∧ (13 : UInt8) ∉ x ∧ (10 : UInt8) ∉ x ∧
+      c.user = (if cs then x.takeWhile (· ≠ 58) else (x.takeWhile (· ≠ 58)).map toLower) ∧
+      (∀ p, c.pass = some p → x = x.takeWhile (· ≠ 58) ++ 58 :: p) ∧
+      (c.pass = none → (58 : UInt8) ∉ x ∨ x = x.takeWhile (· ≠ 58) ++ [58]) := by
+  simp only [Basic.decode] at h
+  generalize hcl : decodeCleartext lim hdr = r at h
+  cases r with
+  | none => simp at h
+  | some x =>
+    obtain ⟨hd, h0, h13, h10⟩ := (decodeCleartext_some lim hdr x).mp hcl
+    refine ⟨x, decodeAll_sound lim hlim1 hlim3 _ _ hd hpad, h0, h13, h10, ?_, ?_, ?_⟩
+    · simp only at h
+      by_cases hsep : x.contains 58 = true
+      · simp only [hsep, ↓reduceIte] at h
+        generalize (x.dropWhile (· ≠ 58)).drop 1 = p at h
+        cases p <;> (simp only [Option.some.injEq] at h; subst h; rfl)
+      · simp only [hsep, Bool.false_eq_true, ↓reduceIte, Option.some.injEq] at h
+        subst h; rfl
+    · intro p hp
+      simp only at h
+      by_cases hsep : x.contains 58 = true
+      · simp only [hsep, ↓reduceIte] at h
+        have hsplit := dropWhile_colon_split x (by simpa using hsep)
+        generalize hq : (x.dropWhile (· ≠ 58)).drop 1 = q at h hsplit
+        have hpq : p = q := by
+          cases q with
+          | nil => simp only [Option.some.injEq] at h; subst h; simp at hp
+          | cons q0 qs => simp only [Option.some.injEq] at h; subst h; simpa using hp.symm
+        subst hpq
+        conv => lhs; rw [← List.takeWhile_append_dropWhile (p := (· ≠ 58)) (l := x)]
+        rw [hsplit]
+      · simp only [hsep, Bool.false_eq_true, ↓reduceIte, Option.some.injEq] at h
+        subst h; simp at hp
+    · intro hp
+      simp only at h
+      by_cases hsep : x.contains 58 = true
+      · right
+        simp only [hsep, ↓reduceIte] at h
+        have hsplit := dropWhile_colon_split x (by simpa using hsep)
+        generalize hq : (x.dropWhile (· ≠ 58)).drop 1 = q at h hsplit
+        cases q with
+        | nil =>
+          conv => lhs; rw [← List.takeWhile_append_dropWhile (p := (· ≠ 58)) (l := x)]
+          rw [hsplit]
+        | cons q0 qs => simp only [Option.some.injEq] at h; subst h; simp at hp
+      · left; simpa using hsep
 
 end Basic
 end SquidModel.Base64
